@@ -1419,11 +1419,15 @@ def _deserialize_node(
             deserialize_node_device_configuration(device_configuration, values=merged_values)
             for device_configuration in proto.device_configurations
         )
+    # A node keeps one attribute per name (the last one wins). Attributes that are going
+    # to be dropped are not deserialized at all: the nodes of a dropped graph attribute
+    # would stay registered as users of the outer-scope values they read.
+    attribute_protos = {a.name: a for a in proto.attribute}
     node = _core.Node(
         proto.domain,
         proto.op_type,
         node_inputs,
-        [_deserialize_attribute(a, scoped_values) for a in proto.attribute],
+        [_deserialize_attribute(a, scoped_values) for a in attribute_protos.values()],
         overload=getattr(proto, "overload", ""),
         outputs=node_outputs,
         name=proto.name,
